@@ -197,11 +197,13 @@ HandleEof(c, cfg, pkt) ==
 \* ---- metadata ----
 \* _init_vfs_handling: directory target -> append the source base name; truncate or create
 Parent(p) == p   \* (unused placeholder)
-InitVfs(c, base) ==
+InitVfs(c, cfg, base) ==
   LET f0 == c.h.p.fname
       f == IF FsIsDir(c.h.fs, f0) THEN f0 \o "/" \o base ELSE f0
       c1 == [c EXCEPT !.h.p.fname = f] IN
-  IF FsIsDir(c1.h.fs, f) THEN [c1 EXCEPT !.h.p.fstat = "FILE_RETAINED"] \* truncate: open(dir, "w") -> IsADirectoryError is not modelled (drivers never do this)
+  \* a rejecting filestore (PermissionError from truncate_file / create_file): nothing is created or truncated
+  IF c1.wrej THEN DeclareFaultD([c1 EXCEPT !.h.p.fstat = "DISCARDED_FILESTORE_REJECTION"], cfg, "FILESTORE_REJECTION")
+  ELSE IF FsIsDir(c1.h.fs, f) THEN [c1 EXCEPT !.h.p.fstat = "FILE_RETAINED"] \* truncate: open(dir, "w") -> IsADirectoryError is not modelled (drivers never do this)
   ELSE [c1 EXCEPT !.h.fs = FsPut(@, f, <<>>), !.h.p.fstat = "FILE_RETAINED"]
 \* _handle_metadata_packet
 HandleMetadata(c, cfg, pkt) ==
@@ -209,9 +211,11 @@ HandleMetadata(c, cfg, pkt) ==
       c1 == [c EXCEPT !.h.p.chkType = pkt.chkType, !.h.p.closure = pkt.closure, !.h.p.mdMissing = FALSE,
                       !.h.p.mdOnly = mdOnly, !.h.p.deliv = IF mdOnly THEN "DATA_COMPLETE" ELSE @,
                       !.h.p.fname = IF mdOnly THEN @ ELSE pkt.dstName, !.h.p.fileSize = pkt.size]
-      c2 == IF ~mdOnly THEN InitVfs(StepD(c1, "RECEIVING_FILE_DATA"), pkt.srcBase) ELSE StepD(c1, "TRANSFER_COMPLETION")
+      c2 == IF ~mdOnly THEN InitVfs(StepD(c1, "RECEIVING_FILE_DATA"), cfg, pkt.srcBase) ELSE StepD(c1, "TRANSFER_COMPLETION")
       msgs == [i \in 1..Len(SelectSeq(pkt.opts, LAMBDA o : o.t = 2)) |-> SelectSeq(pkt.opts, LAMBDA o : o.t = 2)[i].v]
-  IN IndD(c2, [k |-> "metadata_recv", tid |-> c2.h.p.tid, src |-> pkt.h.sv,
+  IN IF c2.h.state = "IDLE" THEN c2     \* abandoned by the filestore-rejection fault: nothing left to indicate
+     ELSE
+     IndD(c2, [k |-> "metadata_recv", tid |-> c2.h.p.tid, src |-> pkt.h.sv,
                size |-> IF pkt.srcName = "none" THEN -1 ELSE pkt.size, srcName |-> pkt.srcName, dstName |-> pkt.dstName,
                msgs |-> msgs])
 \* _handle_fd_without_previous_metadata(True, fd)
